@@ -43,8 +43,9 @@ M = {
  'C08-cancel-restores-mock-value': [('var.go', '\t\t\ttarget.Set(reflect.ValueOf(m.originValue))', '\t\t\tif target.Kind() == reflect.Map {\n\t\t\t\ttarget.Set(reflect.ValueOf(m.mockValue))\n\t\t\t} else {\n\t\t\t\ttarget.Set(reflect.ValueOf(m.originValue))\n\t\t\t}')],
  # ---------------- C10
  'C10-prefix-match-fallback': [('internal/unexports2/symbols.go', '\tsymbol = table.LookupFunc(name)\n\tif symbol == nil {', '\tsymbol = table.LookupFunc(name)\n\tif symbol == nil && len(name) > 1 {\n\t\tsymbol = table.LookupFunc(name[:len(name)-1])\n\t}\n\tif symbol == nil {')],
- # equivalent on linux: both slides are 0 in a non-PIE build and a PIE build cannot load the tables at all
- 'neg-C10-var-alignment-used-for-funcs': [('internal/unexports2/unexports2.go', '\t\treturn uintptr(fn.Entry) + funcAlignment, nil', '\t\treturn uintptr(fn.Entry) + varAlignment + 16*(funcAlignment-varAlignment), nil')],
+ # was a negative control (both slides are 0 in a non-PIE internally linked build); since the extlink
+ # variant (function slide 0x100, variable slide 0) it is a real mutant: caught under -linkmode=external
+ 'C10-var-alignment-mixed-into-funcs': [('internal/unexports2/unexports2.go', '\t\treturn uintptr(fn.Entry) + funcAlignment, nil', '\t\treturn uintptr(fn.Entry) + varAlignment + 16*(funcAlignment-varAlignment), nil')],
  'C10-load-error-swallowed': [('internal/unexports2/symbols.go', '\tsymbol = lookupSym(table, name)\n\tif symbol == nil {', '\tsymbol = lookupSym(table, name)\n\tif symbol == nil && len(table.Syms) == 0 {\n\t\tsymbol = &gosym.Sym{Value: 0x1000}\n\t}\n\tif symbol == nil {')],
  # ---------------- C11
  'C11-replacefunc-without-lock': [('internal/patch/patch.go', 'func (p *patch) replaceFunc() error {\n\tlock()\n\tdefer unlock()\n', 'func (p *patch) replaceFunc() error {\n')],
